@@ -91,6 +91,7 @@ func showExpr(e *expr.Expression) string {
 	return fmt.Sprintf("(%d %s %s %d %d)", int(e.Op), showValue(e.Left), showValue(e.Right), int64(math.Float64bits(bp)), fd)
 }
 
+var interfered = false
 var hangs = 0
 
 const maxHangs = 3
@@ -166,11 +167,12 @@ func parseWith(q, df string) (*expr.Expression, error) {
 // every result that holds memory (a tree, a parameter list, encoded bytes) is shown only AFTER one more call of the same kind
 // has been made with other arguments: a result that aliases state shared between calls (a pooled buffer, a reused slice)
 // then shows up as a wrong observation.
-var interfering = "zq:17 AND (yq:w*y OR NOT xq:[2.5 TO *]) AND vq:(p OR q) uq:\"s t\""
+var interfering = "zq:17 AND (yq:w*y OR NOT xq:[2.5 TO *]) AND vq:(p OR q) AND uq:\"s t\" AND tq:9 AND sq:8 AND rq:7"
 
 func interfere() {
 	defer func() { recover() }()
 	if ex, err := lucene.Parse(interfering); err == nil && ex != nil {
+		interfered = true
 		pg.RenderParam(ex)
 		json.Marshal(ex)
 	}
